@@ -337,3 +337,81 @@ def replay_coop(backend, default, rules, ops, tid=0):
     tsteps, abort = concrete_steps_to_trace(steps)
     return {"id": tid, "backend": backend, "def": default, "rules": rules, "steps": tsteps, "abort": abort,
             "src": "coop-replay", "ops": list(ops)}
+
+
+# ---------------------------------------------------------------------------------------
+# The scenario of MC_coop on the real code: every interleaving of its generators' steps
+# ---------------------------------------------------------------------------------------
+def mc_coop_scenario(c):
+    """Concretization of spec/mc/coop/MC_coop.tla (mcSetup, mcGens2): same pages, same batches."""
+    A = c[6] + c[1] + c[2]
+    B = A + c[4]
+    C = B + c[4]
+    D = A + c[5]
+    E = c[7] + c[1] + c[2] + c[4]
+    setup = [{"op": "AddPage", "l": B, "cr": True}]
+    gens = [{"kind": "crawl", "data": [(A, [B, C, D]), (B, [A])]},
+            {"kind": "crawl", "data": [(D, [C, E]), (C, [B, B])]}]
+    return setup, gens
+
+
+def count_steps(backend, setup, gens):
+    """Number of next() calls each generator needs when run alone after the others (crawl: fixed)."""
+    ix = impl.Index(backend, {"k": "domain"}, [])
+    counts = []
+    try:
+        with always_yield():
+            for op in setup:
+                impl.apply_op(ix, op)
+            for g in gens:
+                it = start_gen(ix.t, g)
+                n = 0
+                while True:
+                    st = next(it)
+                    n += 1
+                    if st.done:
+                        break
+                counts.append(n)
+    finally:
+        ix.destroy()
+    return counts
+
+
+def all_schedules(counts):
+    """Every interleaving of generators with the given step counts (as lists of 1-based indices)."""
+    out = []
+
+    def rec(left, acc):
+        if not any(left):
+            out.append(list(acc))
+            return
+        for j, n in enumerate(left):
+            if n:
+                left[j] -= 1
+                acc.append(j + 1)
+                rec(left, acc)
+                acc.pop()
+                left[j] += 1
+    rec(list(counts), [])
+    return out
+
+
+def exhaustive_traces(seed, backend, first_id, limit=None):
+    import random
+    import tlcgen
+    rng = random.Random(seed * 13 + 7)
+    c = tlcgen.concretizations(rng)
+    setup, gens = mc_coop_scenario(c)
+    counts = count_steps(backend, setup, gens)
+    scheds = all_schedules(counts)
+    total = len(scheds)
+    if limit and len(scheds) > limit:
+        rng.shuffle(scheds)
+        scheds = scheds[:limit]
+    traces = []
+    for i, s in enumerate(scheds):
+        ops = list(setup) + [{"op": "CoopBegin", "gens": [dict(g) for g in gens]}] + \
+            [{"op": "CoopNext", "g": j} for j in s]
+        traces.append(replay_coop(backend, {"k": "domain"}, [], ops, tid=first_id + i))
+    return traces, {"mc_coop_scenario_step_counts": counts, "mc_coop_scenario_interleavings": total,
+                    "mc_coop_scenario_replayed": len(scheds)}
